@@ -3,6 +3,7 @@ package main
 import (
 	"bufio"
 	"fmt"
+	"go/ast"
 	"go/constant"
 	"go/token"
 	"go/types"
@@ -68,6 +69,9 @@ func (p *Program) decoders() []*ssa.Function {
 			continue
 		}
 		if !decoderName.MatchString(f.Name()) || !canFail(f.Signature) {
+			continue
+		}
+		if !p.publiclyCallable(f) {
 			continue
 		}
 		has := false
@@ -140,14 +144,119 @@ func (p *Program) posKey(ps token.Pos) string {
 	return fmt.Sprintf("%s:%d:%d", strings.TrimPrefix(q.Filename, p.Repo+"/"), q.Line, q.Column)
 }
 
+// c10Exception: an operation the LEN prover cannot decide, discharged by a hand proof. Keyed by
+// function and operand descriptor (never by line); the reason is reported with the obligation.
+type c10Exception struct {
+	fn, op string // exact function name; substring of the operation descriptor ("" = any)
+	reason string
+}
+
+var c10Exceptions = []c10Exception{
+	// cipher/ascon: blockSize() ∈ {8,16} (checked: C10.lemma ascon.blockSize); the loops advance both
+	// buffers by blockSize and read 8-byte words at offsets 0 (and 8) below blockSize.
+	{"(*cipher/ascon.Cipher).Open", "sliceForAppend#1[:", "out is the tail sliceForAppend(dst, ptLen) returns, which has exactly ptLen bytes (head[len(in):] of a slice of len(in)+ptLen)"},
+	{"(*cipher/ascon.Cipher).assocData", "", "len(add) ≥ blockSize ∈ {8,16} in the block loop and i ∈ {0,8} < blockSize, so add[i:i+8] is in range; after the loops len(add) < 16, so s[len(add)/8] indexes s[0..1] of [5]uint64"},
+	{"(*cipher/ascon.Cipher).procText", "", "in and out have the same length at both call sites (Seal: out[:len(plaintext)]; Open: ciphertext[:ptLen] and out[:ptLen]) and advance together by blockSize ∈ {8,16}; word offsets i ∈ {0,8} < blockSize; the tail has < 16 bytes so s[len(in)/8] indexes s[0..1]"},
+	{"cipher/ascon.sliceForAppend", "", "n ≥ 0 at both call sites (len(plaintext)+TagSize; len(ciphertext)-TagSize after the len(ciphertext) < TagSize rejection); in[:total] is guarded by cap(in) ≥ total and slicing up to the capacity is legal"},
+	// dh/sidh (deprecated): the lengths are fields of the parameter table (checked: C10.lemma sidh.params:
+	// PublicKeySize = 3·SharedSecretSize, SharedSecretSize = 2·Bytelen, CiphertextSize = PublicKeySize + MsgLen).
+	{"(*dh/sidh.PublicKey).Import", "", "len(input) == params.PublicKeySize == 3·SharedSecretSize is checked first (error otherwise)"},
+	{"(*dh/sidh.PrivateKey).Import", "", "len(input) == prv.Size() == len(prv.Scalar) + MsgLen == len(prv.Scalar) + len(prv.S) is checked first (NewPrivateKey allocates S with MsgLen bytes for the SIKE variant, and no S otherwise)"},
+	{"dh/sidh/internal/common.BytesToFp2", "", "bytelen is params.Bytelen > 0 at every call site; len(input) ≥ 2·bytelen is checked (documented panic) and the callers pass SharedSecretSize = 2·Bytelen bytes"},
+	{"(*dh/sidh.KEM).Decapsulate", "", "documented: panics unless len(ciphertext) == CiphertextSize(); c1Len = CiphertextSize - PublicKeySize = MsgLen ≤ MaxMsgBsz = 40"},
+	{"(*dh/sidh.KEM).decrypt", "", "called by Decapsulate only, after its len(ciphertext) == CiphertextSize check; pkLen + i < pkLen + c1Len = len(ctext)"},
+}
+
+var c10PanicExceptions = []c10Exception{
+	{"(*cipher/ascon.Cipher).Open", "len(param#2)!=16", "crypto/cipher.AEAD contract: the nonce is chosen by the caller's protocol, not parsed from the ciphertext; Open documents that the nonce must be NonceSize() bytes long"},
+	{"sign/bls.VerifyAggregate", "", "default arm of the type switch over the key group K, which the type constraint KeyGroup restricts to G1 | G2; not selected by the input (the length comparison merely dominates it)"},
+	{"(*dh/sidh.PublicKey).Import", "", "default arm of the switch over params.ID: NewPublicKey only builds keys of the three supported fields (common.Params panics at construction otherwise); not selected by the input"},
+	{"dh/sidh/internal/common.BytesToFp2", "", "documented internal precondition; the callers pass slices of 2·Bytelen bytes (see the bounds exception for this function)"},
+	{"expander.mustWrite", "", "the writers are hash states, whose Write never fails"},
+	{"oprf.mustWrite", "", "the writers are hash states, whose Write never fails"},
+	{"zk/dleq.mustWrite", "", "the writers are hash states, whose Write never fails"},
+	{"(group.wG).cvtElt", "", "nil interface elements come from the caller's own code, not from parsed bytes"},
+	{"(group.wG).cvtScl", "", "nil interface scalars come from the caller's own code, not from parsed bytes"},
+}
+
+var c10NilExceptions = []c10Exception{
+	{"abe/cpabe/tkn20/internal/tkn.decapsulate", "", "key.k3 is indexed by labels of the key's own attribute set (Satisfaction only matches labels present in key.a, and deriveAttributeKeys creates k3 for every one of them); the key is the holder's own"},
+}
+
+func findException(tab []c10Exception, fn, op string) (string, bool) {
+	for _, e := range tab {
+		if e.fn == fn && (e.op == "" || strings.Contains(op, e.op)) {
+			return e.reason, true
+		}
+	}
+	return "", false
+}
+
+// unreachAt: control cannot reach `at` given the base facts: the dominating conditions contradict
+// them, or a dominating "x != y" branch is taken although x == y is provable.
+func (lc *lenCtx) unreachAt(at ssa.Instruction, base []lin) bool {
+	facts := append(lc.factsAt(at), base...)
+	if lc.prove(newLin(-1), facts) {
+		return true
+	}
+	for b := at.Block(); b != nil && b.Idom() != nil; b = b.Idom() {
+		d := b.Idom()
+		ifi, ok := d.Instrs[len(d.Instrs)-1].(*ssa.If)
+		if !ok || len(b.Preds) != 1 {
+			continue
+		}
+		bo, ok := ifi.Cond.(*ssa.BinOp)
+		if !ok {
+			continue
+		}
+		if _, _, isInt := intWidth(bo.X.Type()); !isInt {
+			continue
+		}
+		neqEdge := (bo.Op == token.NEQ && d.Succs[0] == b) || (bo.Op == token.EQL && d.Succs[1] == b)
+		if !neqEdge {
+			continue
+		}
+		x, y := lc.linOf(bo.X), lc.linOf(bo.Y)
+		above := append(lc.factsAt(ifi), base...)
+		if lc.prove(x.sub(y), above) && lc.prove(y.sub(x), above) {
+			return true
+		}
+	}
+	return false
+}
+
+func docOf(f *ssa.Function) string {
+	if fd, ok := f.Syntax().(*ast.FuncDecl); ok && fd.Doc != nil {
+		return fd.Doc.Text()
+	}
+	return ""
+}
+
 func checkC10(c *Ctx) {
 	p := c.Prog("amd64")
 	if p == nil {
 		return
 	}
+	c.Clauses = append(c.Clauses,
+		"C10.entries: the decoding entry points are enumerated from the type-checked program (exported functions/methods of public packages, or methods reachable through exported interfaces, with a byte/string parameter and an error/bool result, name in the decoding class)",
+		"C10.bounds: every index, slice, slice-to-array conversion and encoding/binary fixed-width access on a value derived from the untrusted parameters (taint followed interprocedurally through circl callees), which the compiler's prove pass does not eliminate, is shown in range by the LEN prover: linear arithmetic over lengths and integers with dominating conditions, loop-counter induction, integer tightening, per-call-site bindings and return-length summaries; otherwise a minimal length requirement on a parameter is derived and discharged at every tainted call site, up to the entry points",
+		"C10.panic: every explicit panic in that code that is controlled by a tainted condition is unreachable from all tainted call sites, or is the documented fixed-length precondition of an entry point",
+		"C10.nil: results that may be nil (value of a (value, error) call, encoding/pem.Decode's block, map lookups, functions returning those) are dereferenced only under a dominating nil/err check; unchecked type assertions are not applied to map lookups or maybe-nil results — in every circl function reachable from an entry point",
+		"C10.lemma: the facts the hand-proved exceptions rely on (ascon block sizes, SIDH parameter table relations)")
+	c.NotDec = append(c.NotDec,
+		"termination of the decoders; panics inside the standard library or x/crypto other than the listed length preconditions (e.g. big.Int.FillBytes on a too-small buffer)",
+		"values that flow from the input through struct fields or globals between parsing and use (taint is followed through SSA values, calls and results only) — e.g. indices taken from a parsed policy and applied to a parsed header",
+		"slicing within capacity but beyond length is legal Go; the prover demands high ≤ len, which is stricter",
+		"integer overflow of 64-bit length arithmetic is ignored; narrow (8/16/32-bit) arithmetic is tracked with wrap-around",
+		"nil dereferences of values other than the listed maybe-nil sources; division by zero; unchecked assertions on other operands",
+		"the operations listed as exceptions are discharged by the recorded hand proof, not by the prover")
 	decs := p.decoders()
 	c.count("decoders", len(decs))
-	fmt.Printf("decoders: %d\n", len(decs))
+	if len(decs) < 170 {
+		c.undecided("C10.entries", "decoding entry points", fmt.Sprintf("only %d entry points found (floor 170)", len(decs)), "")
+	} else {
+		c.ok("C10.entries", "decoding entry points", fmt.Sprintf("%d entry points enumerated", len(decs)), "")
+	}
 	if os.Getenv("DBGDEC") != "" {
 		for _, d := range decs {
 			fmt.Println("  ", fname(d))
@@ -158,13 +267,17 @@ func checkC10(c *Ctx) {
 		c.undecided("C10.bounds", "compiler bounds-check report", err.Error(), "")
 		return
 	}
-	fmt.Printf("gc unproven checks: %d lines, %d distinct positions in the repository\n", n, len(sites))
+	c.count("gc_unproven_checks_in_repo", n)
+	if n < 1500 {
+		c.undecided("C10.bounds", "compiler bounds-check report", fmt.Sprintf("only %d unproven checks reported (floor 1500): the report is incomplete", n), "")
+		return
+	}
 	t := newTaint(p)
 	for _, d := range decs {
 		t.seed(d)
 	}
 	t.run()
-	fmt.Printf("tainted-reachable functions: %d\n", len(t.funcs))
+	c.count("tainted_functions", len(t.funcs))
 	isDecoder := map[*ssa.Function]bool{}
 	for _, d := range decs {
 		isDecoder[d] = true
@@ -193,14 +306,20 @@ func checkC10(c *Ctx) {
 		queue = append(queue, pending{par, k, why, conds})
 	}
 	eng.intervals(t, decs)
-	nops, nun := 0, 0
 	verdicts := map[string]int{}
-	var undec []string
 	var funcs []*ssa.Function
 	for f := range t.funcs {
 		funcs = append(funcs, f)
 	}
 	sort.Slice(funcs, func(i, j int) bool { return funcs[i].String() < funcs[j].String() })
+	seenObl := map[string]int{}
+	uniq := func(s string) string {
+		seenObl[s]++
+		if seenObl[s] > 1 {
+			return fmt.Sprintf("%s #%d", s, seenObl[s])
+		}
+		return s
+	}
 	for _, f := range funcs {
 		for _, b := range f.Blocks {
 			for _, in := range b.Instrs {
@@ -212,6 +331,19 @@ func checkC10(c *Ctx) {
 					o = boundsOp{f: f, in: in, base: x.X, idx: x.Index}
 				case *ssa.Slice:
 					o = boundsOp{f: f, in: in, base: x.X, lo: x.Low, hi: x.High, isSlice: true}
+				case *ssa.SliceToArrayPointer:
+					if n, ok := arrayLenOfPtr(x.Type()); ok {
+						o = boundsOp{f: f, in: in, base: x.X, minLen: n}
+					} else {
+						continue
+					}
+				case *ssa.Call:
+					// standard-library functions that panic on a short argument
+					arg, n, ok := stdLenPre(p, &x.Call)
+					if !ok {
+						continue
+					}
+					o = boundsOp{f: f, in: in, base: arg, minLen: n, lib: p.staticCalleeName(&x.Call)}
 				default:
 					continue
 				}
@@ -220,26 +352,35 @@ func checkC10(c *Ctx) {
 				if !tb && !ti {
 					continue
 				}
-				nops++
-				if !sites[p.posKey(in.Pos())] {
-					verdicts["gc-prove"]++
+				c.count("tainted_operations", 1)
+				if o.minLen == 0 && !sites[p.posKey(in.Pos())] {
+					verdicts["compiler-proved"]++
 					continue
 				}
-				nun++
+				construct := uniq(fname(f) + ": " + o.desc())
 				v, par, k, detail := eng.decide(o)
-				verdicts[v]++
 				switch v {
+				case "local":
+					verdicts["proved"]++
+					c.ok("C10.bounds", construct, detail, p.pos(in.Pos()))
 				case "requires":
+					verdicts["proved-under-requirement"]++
+					c.ok("C10.bounds", construct, detail+" (discharged at the call sites: C10.callsite)", p.pos(in.Pos()))
 					need(par, k, fmt.Sprintf("%s at %s in %s", o.desc(), p.pos(in.Pos()), fname(f)), eng.ctxOf(f).condsAt(in))
-				case "undecided":
-					undec = append(undec, fmt.Sprintf("%s: %s: %s: %s", p.pos(in.Pos()), fname(f), o.desc(), detail))
+				default:
+					if why, ok := findException(c10Exceptions, fname(f), o.desc()); ok {
+						verdicts["exception"]++
+						c.ok("C10.bounds", construct, "hand proof (not decided by the prover): "+why, p.pos(in.Pos()))
+					} else {
+						verdicts["undecided"]++
+						c.undecided("C10.bounds", construct, detail, p.pos(in.Pos()))
+					}
 				}
 			}
 		}
 	}
 	// propagate length requirements to the call sites
 	cg := p.CallGraph()
-	var entryViol []string
 	for len(queue) > 0 {
 		q := queue[0]
 		queue = queue[1:]
@@ -251,7 +392,15 @@ func checkC10(c *Ctx) {
 			}
 		}
 		if isDecoder[callee] && t.params[q.par] {
-			entryViol = append(entryViol, fmt.Sprintf("%s: %s panics unless len(%s) ≥ %d (%s)", p.fnPos(callee), fname(callee), q.par.Name(), q.k, q.why))
+			doc := docOf(callee)
+			construct := uniq(fmt.Sprintf("%s: len(%s) ≥ %d", fname(callee), paramDesc(q.par), q.k))
+			if strings.Contains(strings.ToLower(doc), "panic") {
+				verdicts["entry-documented"]++
+				c.ok("C10.entry-len", construct, "required by "+q.why+"; the entry point documents that it panics on a wrong length", p.fnPos(callee))
+			} else {
+				verdicts["entry-violation"]++
+				c.bad("C10.entry-len", construct, "an input shorter than this reaches "+q.why, p.fnPos(callee))
+			}
 		}
 		node := cg.Nodes[callee]
 		if node == nil {
@@ -299,45 +448,349 @@ func checkC10(c *Ctx) {
 				verdicts["call-site-not-applicable"]++
 				continue
 			}
+			construct := uniq(fmt.Sprintf("%s calls %s: len(%s) ≥ %d", fname(caller), fname(callee), descVal(arg), q.k))
 			allConds := append(append([]intCond(nil), upConds...), eng.ctxOf(caller).condsAt(e.Site)...)
 			lc := eng.ctxWith(caller, allConds)
-			facts := append(lc.factsAt(e.Site), eng.paramFactsIn(lc, caller)...)
+			base := eng.paramFactsIn(lc, caller)
 			g := lc.lenOf(arg).plus(-q.k)
-			if lc.prove(g, facts) {
-				verdicts["call-site"]++
+			if lc.proveAt(g, e.Site, base) {
+				verdicts["call-site-proved"]++
+				c.ok("C10.callsite", construct, "needed for "+q.why, p.pos(e.Site.Pos()))
 				continue
 			}
 			if rp := rootParam(arg); rp != nil {
-				la := lc.lenOf(rp)
-				try := func(K int64) bool { return lc.prove(g, append(append([]lin(nil), facts...), la.plus(-K))) }
-				if try(1 << 20) {
-					lo, hi := int64(0), int64(1<<20)
-					for lo < hi {
-						mid := (lo + hi) / 2
-						if try(mid) {
-							hi = mid
-						} else {
-							lo = mid + 1
-						}
-					}
+				if k, ok := lc.minLen([]lin{g}, e.Site, base, lc.lenOf(rp)); ok {
 					verdicts["call-site-requires"]++
-					need(rp, lo, fmt.Sprintf("call of %s at %s needs len ≥ %d: %s", fname(callee), p.pos(e.Site.Pos()), q.k, q.why), allConds)
+					c.ok("C10.callsite", construct, fmt.Sprintf("holds when len(%s) ≥ %d (propagated to the callers)", paramDesc(rp), k), p.pos(e.Site.Pos()))
+					need(rp, k, fmt.Sprintf("call of %s at %s needs len ≥ %d: %s", fname(callee), p.pos(e.Site.Pos()), q.k, q.why), allConds)
 					continue
 				}
 			}
+			if why, ok := findException(c10Exceptions, fname(caller), "call "+fname(callee)); ok {
+				verdicts["exception"]++
+				c.ok("C10.callsite", construct, "hand proof (not decided by the prover): "+why, p.pos(e.Site.Pos()))
+				continue
+			}
 			verdicts["call-undecided"]++
-			undec = append(undec, fmt.Sprintf("%s: %s: call of %s needs len(%s) ≥ %d [%s]: cannot prove %s ≥ 0", p.pos(e.Site.Pos()), fname(caller), fname(callee), descVal(arg), q.k, q.why, g.String()))
+			c.undecided("C10.callsite", construct, fmt.Sprintf("needed for %s: cannot prove %s ≥ 0", q.why, g.String()), p.pos(e.Site.Pos()))
 		}
 	}
-	fmt.Printf("tainted bounds operations: %d, of which not proven by the compiler: %d\n", nops, nun)
-	fmt.Printf("verdicts: %v\n", verdicts)
-	sort.Strings(undec)
-	for _, u := range undec {
-		fmt.Println("UNDECIDED", u)
+	// explicit panics under tainted conditions
+	for _, f := range funcs {
+		for _, b := range f.Blocks {
+			pn, ok := b.Instrs[len(b.Instrs)-1].(*ssa.Panic)
+			if !ok {
+				continue
+			}
+			tc := ""
+			for x := b; x != nil && x.Idom() != nil; x = x.Idom() {
+				d := x.Idom()
+				ifi, ok := d.Instrs[len(d.Instrs)-1].(*ssa.If)
+				if !ok || len(x.Preds) != 1 {
+					continue
+				}
+				if bo, ok := ifi.Cond.(*ssa.BinOp); ok && (t.isTainted(bo.X) || t.isTainted(bo.Y)) {
+					tc = descVal(bo)
+					break
+				}
+			}
+			if tc == "" {
+				continue
+			}
+			c.count("tainted_panics", 1)
+			construct := uniq(fmt.Sprintf("%s: panic under %s", fname(f), tc))
+			pos := p.pos(pn.Pos())
+			lc := eng.ctxOf(f)
+			if !isDecoder[f] && lc.unreachAt(pn, eng.paramFacts(f)) {
+				c.ok("C10.panic", construct, "unreachable: contradicts the lengths every tainted call site provides", pos)
+				continue
+			}
+			if bs := eng.bindings(f); len(bs) > 0 && !isDecoder[f] {
+				all := true
+				for _, bd := range bs {
+					blc := eng.ctxWith(f, bd.ints)
+					bbase := eng.paramFactsIn(blc, f)
+					for par, n := range bd.lens {
+						l := blc.lenOf(par)
+						bbase = append(bbase, l.plus(-n), newLin(n).sub(l))
+					}
+					if !blc.unreachAt(pn, bbase) {
+						all = false
+						break
+					}
+				}
+				if all {
+					c.ok("C10.panic", construct, fmt.Sprintf("unreachable under each of the %d call-site bindings (exact lengths / constant arguments)", len(bs)), pos)
+					continue
+				}
+			}
+			if isDecoder[f] && strings.Contains(tc, "len(") && strings.Contains(strings.ToLower(docOf(f)), "panic") {
+				c.ok("C10.panic", construct, "documented length precondition of the entry point (its doc comment says it panics)", pos)
+				continue
+			}
+			if why, ok := findException(c10PanicExceptions, fname(f), tc); ok {
+				c.ok("C10.panic", construct, "hand proof: "+why, pos)
+				continue
+			}
+			c.undecided("C10.panic", construct, "an explicit panic guarded by an input-dependent condition is neither unreachable from the tainted call sites nor a documented length precondition", pos)
+		}
 	}
-	sort.Strings(entryViol)
-	for _, u := range entryViol {
-		fmt.Println("ENTRY", u)
+	// nil results and unchecked assertions, over everything reachable from the entry points
+	reach := p.reachFrom(decs)
+	c.count("reachable_functions", len(reach))
+	nilChecked := 0
+	for _, f := range reach {
+		n, bad := p.nilSites(f)
+		nilChecked += n
+		for _, b := range bad {
+			construct := uniq(fmt.Sprintf("%s: %s", fname(f), b.source))
+			if why, ok := findException(c10NilExceptions, fname(f), b.source); ok {
+				c.ok("C10.nil", construct, "hand proof: "+why, p.pos(b.use.Pos()))
+				continue
+			}
+			c.bad("C10.nil", construct, "dereferenced by "+b.use.String()+" without a dominating nil / error check", p.pos(b.use.Pos()))
+		}
+		for _, b := range f.Blocks {
+			for _, in := range b.Instrs {
+				ta, ok := in.(*ssa.TypeAssert)
+				if !ok || ta.CommaOk {
+					continue
+				}
+				src := ""
+				switch x := ta.X.(type) {
+				case *ssa.Lookup:
+					if _, isMap := x.X.Type().Underlying().(*types.Map); isMap {
+						src = "a map lookup"
+					}
+				case *ssa.Call:
+					if sc := x.Call.StaticCallee(); sc != nil && p.mayReturnNil(sc, 0) {
+						src = "the maybe-nil result of " + fname(sc)
+					}
+				}
+				nilChecked++
+				if src != "" && !nilGuards(ta, ta.X, false) {
+					c.bad("C10.nil", uniq(fmt.Sprintf("%s: unchecked type assertion on %s", fname(f), src)), ta.String()+" panics when the operand is nil", p.pos(ta.Pos()))
+				}
+			}
+		}
 	}
-	c.ok("C10.survey", "survey", "survey only", "")
+	c.count("nil_sensitive_uses_checked", nilChecked)
+	if nilChecked < 40 {
+		c.undecided("C10.nil", "maybe-nil uses", fmt.Sprintf("only %d uses examined (floor 40)", nilChecked), "")
+	} else {
+		c.ok("C10.nil", "maybe-nil uses", fmt.Sprintf("%d dereferences / assertions of maybe-nil results examined in %d reachable functions", nilChecked, len(reach)), "")
+	}
+	c10Lemmas(c, p)
+	for k, v := range verdicts {
+		c.count("verdict_"+k, v)
+	}
+	fmt.Printf("C10: %d entry points, %d tainted functions, verdicts %v\n", len(decs), len(t.funcs), verdicts)
+}
+
+// c10Lemmas checks the facts the hand-proved exceptions cite.
+func c10Lemmas(c *Ctx, p *Program) {
+	// ascon: blockSize returns 8 or 16 for each of the three modes New accepts
+	if f := p.Func("cipher/ascon", "Cipher", "blockSize"); f == nil {
+		c.undecided("C10.lemma", "ascon.blockSize ∈ {8,16}", "function not found", "")
+	} else {
+		okv := true
+		var vals []string
+		for _, mn := range []string{"Ascon128", "Ascon128a", "Ascon80pq"} {
+			m, ok := p.constInt("cipher/ascon", mn)
+			if !ok {
+				okv = false
+				vals = append(vals, mn+"=?")
+				continue
+			}
+			r := runGuard(&GuardQuery{P: p, Root: f, MaxDepth: 2, ValAssumes: []ValAssume{{Name: "mode", Val: latInt(m), Match: func(v ssa.Value, in *ssa.Function) bool {
+				u, ok := v.(*ssa.UnOp)
+				if !ok || u.Op != token.MUL {
+					return false
+				}
+				fa, ok := u.X.(*ssa.FieldAddr)
+				return ok && fieldName(fa) == "mode"
+			}}}})
+			if len(r.Returns) == 0 {
+				okv = false
+			}
+			for _, ri := range r.Returns {
+				if len(ri.Vals) != 1 || ri.Vals[0].k != kConst {
+					okv = false
+					vals = append(vals, fmt.Sprintf("%s(%d)→?", mn, m))
+					continue
+				}
+				n, _ := constant.Int64Val(ri.Vals[0].c)
+				vals = append(vals, fmt.Sprintf("%s(%d)→%d", mn, m, n))
+				if n != 8 && n != 16 {
+					okv = false
+				}
+			}
+		}
+		if okv {
+			c.ok("C10.lemma", "ascon.blockSize ∈ {8,16}", strings.Join(vals, ", "), p.fnPos(f))
+		} else {
+			c.bad("C10.lemma", "ascon.blockSize ∈ {8,16}", strings.Join(vals, ", "), p.fnPos(f))
+		}
+	}
+	// sidh parameter tables
+	for _, pk := range []string{"p434", "p503", "p751"} {
+		e, info := p.varInit("dh/sidh/internal/"+pk, "params")
+		construct := "sidh.params " + pk
+		cl, ok := e.(*ast.CompositeLit)
+		if !ok {
+			c.undecided("C10.lemma", construct, "parameter literal not found", "")
+			continue
+		}
+		vals := map[string]int64{}
+		for _, el := range cl.Elts {
+			kv, ok := el.(*ast.KeyValueExpr)
+			if !ok {
+				continue
+			}
+			id, ok := kv.Key.(*ast.Ident)
+			if !ok {
+				continue
+			}
+			if tv, ok := info.Types[kv.Value]; ok && tv.Value != nil && tv.Value.Kind() == constant.Int {
+				n, _ := constant.Int64Val(tv.Value)
+				vals[id.Name] = n
+			}
+		}
+		pks, ss, bl, ml, cs := vals["PublicKeySize"], vals["SharedSecretSize"], vals["Bytelen"], vals["MsgLen"], vals["CiphertextSize"]
+		w := fmt.Sprintf("PublicKeySize=%d SharedSecretSize=%d Bytelen=%d MsgLen=%d CiphertextSize=%d", pks, ss, bl, ml, cs)
+		if pks > 0 && pks == 3*ss && ss == 2*bl && cs == pks+ml && ml > 0 && ml <= 40 {
+			c.ok("C10.lemma", construct, w, "")
+		} else {
+			c.bad("C10.lemma", construct, w+": expected PublicKeySize = 3·SharedSecretSize, SharedSecretSize = 2·Bytelen, CiphertextSize = PublicKeySize + MsgLen, 0 < MsgLen ≤ 40", "")
+		}
+	}
+}
+
+func arrayLenOfPtr(t types.Type) (int64, bool) {
+	if pt, ok := t.Underlying().(*types.Pointer); ok {
+		if at, ok := pt.Elem().Underlying().(*types.Array); ok {
+			return at.Len(), true
+		}
+	}
+	return 0, false
+}
+
+// stdLenPre: standard-library callees that panic unless a slice argument has a minimal length.
+func stdLenPre(p *Program, c *ssa.CallCommon) (arg ssa.Value, n int64, ok bool) {
+	name := p.staticCalleeName(c)
+	var args []ssa.Value
+	if c.IsInvoke() {
+		args = append(args, c.Value)
+	}
+	args = append(args, c.Args...)
+	m := stdPreRe.FindStringSubmatch(name)
+	if m == nil || len(args) < 2 {
+		return nil, 0, false
+	}
+	switch m[2] {
+	case "16":
+		n = 2
+	case "32":
+		n = 4
+	case "64":
+		n = 8
+	}
+	return args[1], n, true
+}
+
+var stdPreRe = regexp.MustCompile(`^(?:invoke )?\(encoding/binary\.(?:littleEndian|bigEndian|ByteOrder|AppendByteOrder)\)\.(Uint|PutUint)(16|32|64)$`)
+
+// reachFrom: circl functions reachable from the roots through the call graph (sorted).
+func (p *Program) reachFrom(roots []*ssa.Function) []*ssa.Function {
+	cg := p.CallGraph()
+	seen := map[*ssa.Function]bool{}
+	work := append([]*ssa.Function(nil), roots...)
+	for _, r := range roots {
+		seen[r] = true
+	}
+	for len(work) > 0 {
+		f := work[0]
+		work = work[1:]
+		n := cg.Nodes[f]
+		if n == nil {
+			continue
+		}
+		for _, e := range n.Out {
+			g := e.Callee.Func
+			if g == nil || seen[g] || !inlinable(g) {
+				continue
+			}
+			seen[g] = true
+			work = append(work, g)
+		}
+		for _, an := range f.AnonFuncs {
+			if !seen[an] {
+				seen[an] = true
+				work = append(work, an)
+			}
+		}
+	}
+	var out []*ssa.Function
+	for f := range seen {
+		out = append(out, f)
+	}
+	sort.Slice(out, func(i, j int) bool { return out[i].String() < out[j].String() })
+	return out
+}
+
+// publiclyCallable: a function, a method of an exported type, or a method of an unexported type that
+// implements (under that name) a method of an exported interface of circl or of the standard
+// encoding / crypto interfaces — the only way code outside the package can call it.
+func (p *Program) publiclyCallable(f *ssa.Function) bool {
+	recv := f.Signature.Recv()
+	if recv == nil {
+		return true
+	}
+	rt := recv.Type()
+	if pt, ok := rt.(*types.Pointer); ok {
+		rt = pt.Elem()
+	}
+	named, ok := rt.(*types.Named)
+	if !ok {
+		return true
+	}
+	if named.Obj().Exported() {
+		return true
+	}
+	if p.exportedIfaces == nil {
+		for _, pk := range p.Pkgs {
+			path := pk.Types.Path()
+			if !isCirclPath(path) && path != "encoding" && path != "crypto/cipher" && path != "crypto" {
+				continue
+			}
+			if strings.Contains(path, "/internal") {
+				continue
+			}
+			sc := pk.Types.Scope()
+			for _, n := range sc.Names() {
+				tn, ok := sc.Lookup(n).(*types.TypeName)
+				if !ok || !tn.Exported() {
+					continue
+				}
+				if it, ok := tn.Type().Underlying().(*types.Interface); ok && it.NumMethods() > 0 {
+					p.exportedIfaces = append(p.exportedIfaces, it)
+				}
+			}
+		}
+	}
+	for _, it := range p.exportedIfaces {
+		has := false
+		for i := 0; i < it.NumMethods(); i++ {
+			if it.Method(i).Name() == f.Name() {
+				has = true
+			}
+		}
+		if !has {
+			continue
+		}
+		if types.Implements(named, it) || types.Implements(types.NewPointer(named), it) {
+			return true
+		}
+	}
+	return false
 }
